@@ -27,6 +27,8 @@ def fake(ctx, idu, ids, context, cred):
             return
         ctx.expect(r.n(2) == L.Nh + 32 + L.Nsk + 32, "fake path draws masking key + masking nonce + ephemeral seed + nonce")
         states.append(r.b(0)); resps.append(r.b(1))
+        if k == 0:
+            fallible_rng_same(ctx, r, "srv_login_start", t, f.setup, None, req, cred, context, idu, ids)
         if k == 1:   # interleave a real login
             rr = ctx.call("srv_login_start", ctx.tape(64 + L.Nsk + 16), f.setup, f.file, req, cred, context, idu, ids)
             real = rr.b(1)
